@@ -1,0 +1,120 @@
+//! Call tracing of the processing stages.
+//!
+//! Compiled only with `--cfg jawk_verif` (the conformance harness under /verif uses it); a normal build does not contain this module.
+//! Every stage of the chain that `Master::go` builds is wrapped in a [`Traced`] process that records, per thread, one event when a call
+//! of `start` / `process` / `complete` enters the stage and one when it returns.
+use std::cell::RefCell;
+
+use crate::processor::{Context, Process, ProcessDesision, Result as ProcessResult, Titles};
+
+/// One recorded call boundary.
+#[derive(Debug, Clone)]
+pub struct StageEvent {
+    /// the number of the stage, in the order the stages are created (0 is the printer, the last stage of the chain)
+    pub stage: usize,
+    /// the kind of the stage (`print`, `group`, `merge`, `limit`, `sort`, `unique`, `select`, `filter`, `split`, `set`)
+    pub kind: &'static str,
+    /// `start`, `process`, `complete` when the call enters the stage; `started`, `processed`, `completed` when it returns
+    pub event: &'static str,
+    /// for `process`: the row the context would be printed as (`Context::build`), as one-line JSON
+    pub row: Option<String>,
+    /// for `start`: the number of titles so far
+    pub titles: usize,
+    /// for the return events: `continue`, `break`, `ok` or `error`
+    pub outcome: &'static str,
+}
+
+thread_local! {
+    static EVENTS: RefCell<Option<Vec<StageEvent>>> = const { RefCell::new(None) };
+    static CREATED: RefCell<usize> = const { RefCell::new(0) };
+}
+
+/// Start recording on this thread (drops whatever was recorded before).
+pub fn start_recording() {
+    EVENTS.with(|e| *e.borrow_mut() = Some(Vec::new()));
+    CREATED.with(|c| *c.borrow_mut() = 0);
+}
+
+/// Stop recording on this thread and hand over the events.
+pub fn take_events() -> Vec<StageEvent> {
+    EVENTS.with(|e| e.borrow_mut().take()).unwrap_or_default()
+}
+
+fn record(event: StageEvent) {
+    EVENTS.with(|e| {
+        if let Some(events) = e.borrow_mut().as_mut() {
+            events.push(event);
+        }
+    });
+}
+
+pub(crate) fn address(process: &dyn Process) -> *const () {
+    process as *const dyn Process as *const ()
+}
+
+/// Wrap `process` when it is a new stage, that is, when it is not the process at `before` (some stages are only created when their
+/// option is given and hand back the process they were given otherwise).
+pub(crate) fn wrap(
+    kind: &'static str,
+    before: Option<*const ()>,
+    process: Box<dyn Process>,
+) -> Box<dyn Process> {
+    if before == Some(address(process.as_ref())) {
+        return process;
+    }
+    let stage = CREATED.with(|c| {
+        let mut c = c.borrow_mut();
+        *c += 1;
+        *c - 1
+    });
+    Box::new(Traced {
+        stage,
+        kind,
+        next: process,
+    })
+}
+
+struct Traced {
+    stage: usize,
+    kind: &'static str,
+    next: Box<dyn Process>,
+}
+
+impl Traced {
+    fn event(&self, event: &'static str, row: Option<String>, titles: usize, outcome: &'static str) {
+        record(StageEvent {
+            stage: self.stage,
+            kind: self.kind,
+            event,
+            row,
+            titles,
+            outcome,
+        });
+    }
+}
+
+impl Process for Traced {
+    fn start(&mut self, titles_so_far: Titles) -> ProcessResult<()> {
+        self.event("start", None, titles_so_far.len(), "");
+        let result = self.next.start(titles_so_far);
+        self.event("started", None, 0, if result.is_ok() { "ok" } else { "error" });
+        result
+    }
+    fn process(&mut self, context: Context) -> ProcessResult<ProcessDesision> {
+        self.event("process", Some(format!("{}", context.build())), 0, "");
+        let result = self.next.process(context);
+        let outcome = match &result {
+            Ok(ProcessDesision::Continue) => "continue",
+            Ok(ProcessDesision::Break) => "break",
+            Err(_) => "error",
+        };
+        self.event("processed", None, 0, outcome);
+        result
+    }
+    fn complete(&mut self) -> ProcessResult<()> {
+        self.event("complete", None, 0, "");
+        let result = self.next.complete();
+        self.event("completed", None, 0, if result.is_ok() { "ok" } else { "error" });
+        result
+    }
+}
